@@ -229,7 +229,7 @@ def r135(chk, m):
                                  'userdata': {}})
         me = A.Obj('renderer', {'level': 'unset'}, cls=Rend)
         it = A.Interp(model=m, scope=fn, hooks=H(m, Rend), max_iter=4, exc_edges=False, inline=2, heap=True, precise_exc=True)
-        it.h.should_inline = A.private_only
+        it.h.should_inline = A.helpers_anywhere
         outs = it.run_function(fn, env={'self': me, 'document': doc, 'postProcess': None})
         key = 'filename template %r' % tpl
         if it.unknown_branches:
